@@ -125,7 +125,7 @@ func c08Guard(f func() string) string {
 	select {
 	case r := <-ch:
 		return r
-	case <-time.After(20 * time.Second):
+	case <-time.After(90 * time.Second):
 		return "timeout"
 	}
 }
@@ -502,7 +502,7 @@ func c08LagCase(t *testing.T, out *vh.Out, rng *vh.Rand, extra int) {
 		var res string
 		select {
 		case res = <-p.ch:
-		case <-time.After(20 * time.Second):
+		case <-time.After(90 * time.Second):
 			res = "timeout"
 		}
 		s.op(res, "put", "p", p.key, vh.Hex(p.val))
